@@ -30,6 +30,7 @@ type Terms struct {
 	// that may) between the test and the point of use: a test of s.f says nothing about s.f after s.f was written.
 	FieldWrites map[*ssa.Function]map[string]bool
 	memo        map[ssa.Value]string
+	phiDepth    int
 	busy        map[ssa.Value]bool
 	depth       int
 	// InlineDepth bounds getter inlining.
@@ -401,6 +402,38 @@ func negOp(op token.Token) token.Token {
 // condFacts turns "cond has truth value pol" into facts.
 func (t *Terms) condFacts(cond ssa.Value, pol bool) []Fact {
 	switch x := cond.(type) {
+	case *ssa.Phi:
+		// a condition kept in a local bool: `v := a && b` lowers to phi[false, b]; v being true means the edge that
+		// carries the non-constant operand was taken (and so everything known on that edge), plus that operand is true
+		if b, ok := x.Type().Underlying().(*types.Basic); ok && b.Kind() == types.Bool && len(x.Edges) >= 2 && t.phiDepth < 3 {
+			var live []int
+			for i, e := range x.Edges {
+				if k, ok := e.(*ssa.Const); ok && k.Value != nil && k.Value.Kind() == constant.Bool && constant.BoolVal(k.Value) != pol {
+					continue // this edge yields the opposite truth value
+				}
+				live = append(live, i)
+			}
+			if len(live) == 1 {
+				i := live[0]
+				pred := x.Block().Preds[i]
+				t.phiDepth++
+				fs := append([]Fact{}, t.FactsAt(pred)...)
+				fs = append(fs, t.edgeFactsOn(pred, x.Block())...)
+				if _, isConst := x.Edges[i].(*ssa.Const); !isConst {
+					fs = append(fs, t.condFacts(x.Edges[i], pol)...)
+				}
+				t.phiDepth--
+				// keep the plain fact about the phi itself as well
+				a, bb := t.T(cond), "const:false"
+				if pol {
+					bb = "const:true"
+				}
+				if a > bb {
+					a, bb = bb, a
+				}
+				return append(fs, Fact{"EQ", a, bb})
+			}
+		}
 	case *ssa.UnOp:
 		if x.Op == token.NOT {
 			return t.condFacts(x.X, !pol)
@@ -675,4 +708,48 @@ func intervalOf(fs []Fact, term string) (lo, hi int) {
 		}
 	}
 	return
+}
+
+// condAlternatives: the ways in which cond can have truth value pol, each as the set of facts that then hold (a small
+// disjunctive normal form). A plain comparison has one alternative; a boolean kept in a local (`v := a && b`, a phi)
+// has one per incoming edge that can produce pol, with the facts of that edge.
+func (t *Terms) condAlternatives(cond ssa.Value, pol bool, depth int) [][]Fact {
+	if u, ok := cond.(*ssa.UnOp); ok && u.Op == token.NOT {
+		return t.condAlternatives(u.X, !pol, depth)
+	}
+	if ph, ok := cond.(*ssa.Phi); ok && depth < 3 {
+		if b, ok := ph.Type().Underlying().(*types.Basic); ok && b.Kind() == types.Bool {
+			var out [][]Fact
+			for i, e := range ph.Edges {
+				if k, ok := e.(*ssa.Const); ok && k.Value != nil && k.Value.Kind() == constant.Bool {
+					if constant.BoolVal(k.Value) != pol {
+						continue
+					}
+					pred := ph.Block().Preds[i]
+					fs := append(append([]Fact{}, t.FactsAt(pred)...), t.edgeFactsOn(pred, ph.Block())...)
+					out = append(out, fs)
+					continue
+				}
+				pred := ph.Block().Preds[i]
+				base := append(append([]Fact{}, t.FactsAt(pred)...), t.edgeFactsOn(pred, ph.Block())...)
+				for _, alt := range t.condAlternatives(e, pol, depth+1) {
+					out = append(out, append(append([]Fact{}, base...), alt...))
+				}
+			}
+			return out
+		}
+	}
+	return [][]Fact{t.condFacts(cond, pol)}
+}
+
+// edgeAlternatives: condAlternatives for the CFG edge from->to.
+func (t *Terms) edgeAlternatives(from, to *ssa.BasicBlock) [][]Fact {
+	if len(from.Instrs) == 0 {
+		return nil
+	}
+	iff, ok := from.Instrs[len(from.Instrs)-1].(*ssa.If)
+	if !ok || from.Succs[0] == from.Succs[1] {
+		return nil
+	}
+	return t.condAlternatives(iff.Cond, to == from.Succs[0], 0)
 }
